@@ -71,15 +71,41 @@ def rule_default_wrap(ctx, px):
     ctx.unit("argparse_arguments", len(table))
     f = px.func(RUN_MOD, "ArgparseRunner._create_language_context")
     n = 0
-    # the options dict is whatever is handed to the builder under WKCV_LANGUAGE_OPTIONS
-    optvar = None
+    # the options dict is whatever is handed to the builder under WKCV_LANGUAGE_OPTIONS: the second argument of the override call, or the
+    # value paired with that key in a table of (key, value) pairs the function applies in a loop; it may be built by a helper method
+    optsrc = None
     for c in ast.walk(f.node):
         if isinstance(c, ast.Call) and isinstance(c.func, ast.Attribute) and c.func.attr == "set_target_language_configuration_override" \
-                and len(c.args) == 2 and "LANGUAGE_OPTIONS" in ast.unparse(c.args[0]) and isinstance(c.args[1], ast.Name):
-            optvar = c.args[1].id
+                and len(c.args) == 2 and "LANGUAGE_OPTIONS" in ast.unparse(c.args[0]):
+            optsrc = c.args[1]
+    if optsrc is None:
+        for tpl in ast.walk(f.node):
+            if isinstance(tpl, ast.Tuple) and len(tpl.elts) == 2 and "LANGUAGE_OPTIONS" in ast.unparse(tpl.elts[0]) and not isinstance(tpl.elts[0], ast.Tuple):
+                optsrc = tpl.elts[1]
+    fb, optvar = f, None
+    if isinstance(optsrc, ast.Name):
+        optvar = optsrc.id
+    elif isinstance(optsrc, ast.Call) and isinstance(optsrc.func, ast.Attribute) and isinstance(optsrc.func.value, ast.Name) and optsrc.func.value.id in ("self", "cls") \
+            and f.cls is not None and optsrc.func.attr in f.cls.methods:
+        fb = f.cls.methods[optsrc.func.attr]
+        rets = [r.value for r in ast.walk(fb.node) if isinstance(r, ast.Return) and r.value is not None]
+        if len(rets) == 1 and isinstance(rets[0], ast.Name):
+            optvar = rets[0].id
     if optvar is None:
         raise AnalysisError("anchor missing: language options override in _create_language_context")
-    pm_f = pyfront.parent_map(f.node)
+    pm_f = pyfront.parent_map(fb.node)
+
+    def loop_constants(it):
+        """the string constants a loop runs over: a literal tuple / list, or a class-level constant table (`self._SWITCHES`)"""
+        if isinstance(it, ast.Attribute) and isinstance(it.value, ast.Name) and it.value.id in ("self", "cls") and fb.cls is not None:
+            for st_ in fb.cls.node.body:
+                if isinstance(st_, (ast.Assign, ast.AnnAssign)) and st_.value is not None:
+                    tg_ = st_.targets[0] if isinstance(st_, ast.Assign) else st_.target
+                    if isinstance(tg_, ast.Name) and tg_.id == it.attr:
+                        it = st_.value
+        if isinstance(it, (ast.Tuple, ast.List)) and all(isinstance(e, ast.Constant) and isinstance(e.value, str) for e in it.elts):
+            return [e.value for e in it.elts]
+        return None
 
     def expand_loop_constants(st):
         """`for name in ("a", "b"): options[name] = X if getattr(self._args, name) else DefaultValue(..)` -> one statement per
@@ -87,36 +113,38 @@ def rule_default_wrap(ctx, px):
         cur = pm_f.get(id(st))
         while cur is not None and not isinstance(cur, ast.For):
             cur = pm_f.get(id(cur))
-        if cur is None or not isinstance(cur.target, ast.Name) or not isinstance(cur.iter, (ast.Tuple, ast.List)) \
-                or not all(isinstance(e, ast.Constant) and isinstance(e.value, str) for e in cur.iter.elts):
+        consts = loop_constants(cur.iter) if cur is not None and isinstance(cur.target, ast.Name) else None
+        if consts is None:
             return [st]
         lv = cur.target.id
         if lv not in {x.id for x in ast.walk(st) if isinstance(x, ast.Name)}:
             return [st]
         out = []
-        for e in cur.iter.elts:
+        for ev in consts:
             class _R(ast.NodeTransformer):
                 def visit_Call(self, node):
                     if isinstance(node.func, ast.Name) and node.func.id == "getattr" and len(node.args) >= 2 and ast.unparse(node.args[0]) == "self._args" \
                             and isinstance(node.args[1], ast.Name) and node.args[1].id == lv:
-                        return ast.copy_location(ast.Attribute(value=node.args[0], attr=e.value, ctx=ast.Load()), node)
+                        return ast.copy_location(ast.Attribute(value=node.args[0], attr=ev, ctx=ast.Load()), node)
                     self.generic_visit(node)
                     return node
 
                 def visit_Name(self, node):
-                    return ast.copy_location(ast.Constant(value=e.value), node) if node.id == lv else node
+                    return ast.copy_location(ast.Constant(value=ev), node) if node.id == lv else node
             import copy as _copy
             out.append(ast.fix_missing_locations(_R().visit(_copy.deepcopy(st))))
         return out
 
     stmts = []
-    for st, gd in pyfront.walk_guarded(f.node.body):
+    for st, gd in pyfront.walk_guarded(fb.node.body):
         if isinstance(st, ast.Assign) and isinstance(st.targets[0], ast.Subscript) and ast.unparse(st.targets[0].value) == optvar:
-            # a hoisted local (`flag = getattr(self._args, name)`) is the expression it was assigned
-            st_n = ast.copy_location(ast.Assign(targets=st.targets, value=pyfront.subst_locals(f.node, st.value)), st)
+            # a hoisted local (`flag = getattr(self._args, name)`, `args = self._args`) is the expression it was assigned
+            st_n = ast.copy_location(ast.Assign(targets=st.targets, value=pyfront.subst_locals(fb.node, st.value)), st)
             pm_f[id(st_n)] = pm_f.get(id(st))
+            gd_n = tuple((pyfront.subst_locals(fb.node, t_), p_) for t_, p_ in gd)
             for st2 in expand_loop_constants(st_n):
-                stmts.append((st2, gd))
+                stmts.append((st2, gd_n))
+    f = fb
     for st, gd in stmts:
         if True:
             key = ast.unparse(st.targets[0].slice)
@@ -242,10 +270,23 @@ def rule_order(ctx, px):
     acf_call = [c for c in ast.walk(f.node) if isinstance(c, ast.Call) and isinstance(c.func, ast.Attribute) and c.func.attr == "add_config_files"]
     if acf_call:
         a = acf_call[0]
-        ok = len(a.args) == 1 and isinstance(a.args[0], ast.Starred) and isinstance(a.args[0].value, ast.Name)
+        ok = len(a.args) == 1 and isinstance(a.args[0], ast.Starred)
         if ok:
-            vals = [n_.value for n_ in ast.walk(f.node) if isinstance(n_, ast.Assign) and any(isinstance(t_, ast.Name) and t_.id == a.args[0].value.id for t_ in n_.targets)]
-            ok = bool(vals) and all(ast.unparse(v_) in ("[]", "self._args.configuration", "[self._args.configuration]", "list(self._args.configuration)") for v_ in vals)
+            src = a.args[0].value
+            vals, where = [], f
+            if isinstance(src, ast.Name):
+                vals = [n_.value for n_ in ast.walk(f.node) if isinstance(n_, ast.Assign) and any(isinstance(t_, ast.Name) and t_.id == src.id for t_ in n_.targets)]
+            elif isinstance(src, ast.Call) and isinstance(src.func, ast.Attribute) and isinstance(src.func.value, ast.Name) and src.func.value.id in ("self", "cls") \
+                    and f.cls is not None and src.func.attr in f.cls.methods and not src.args and not src.keywords:
+                where = f.cls.methods[src.func.attr]       # built by a helper method: what it can return
+                vals = [r_.value for r_ in ast.walk(where.node) if isinstance(r_, ast.Return) and r_.value is not None]
+
+            def _plain(v_):
+                v_ = pyfront.subst_locals(where.node, v_)
+                while isinstance(v_, ast.Call) and ast.unparse(v_.func) in ("typing.cast", "cast") and len(v_.args) == 2:
+                    v_ = v_.args[1]
+                return ast.unparse(v_)
+            ok = bool(vals) and all(_plain(v_) in ("[]", "self._args.configuration", "[self._args.configuration]", "list(self._args.configuration)") for v_ in vals)
         ctx.ob(R, f.module.rel, f"{f.short} :: all --configuration files are passed, in command-line order", ok, "", a.lineno)
     # lazily loaded built-ins: config property
     lcl = px.cls("nunavut.lang._language", "LanguageClassLoader")
@@ -365,6 +406,21 @@ def rule_group_unit(ctx, px, root):
         for x in ast.walk(f.node):
             if isinstance(x, ast.Subscript) and isinstance(x.ctx, ast.Store) and isinstance(x.slice, ast.Constant) and x.slice.value in declared:
                 cli_set.setdefault(x.slice.value, f.short)
+        # `for name in (<option names>): options[name] = ...` - the names may sit in a class-level table
+        for lp in ast.walk(f.node):
+            if not (isinstance(lp, ast.For) and isinstance(lp.target, ast.Name)):
+                continue
+            it = lp.iter
+            if isinstance(it, ast.Attribute) and isinstance(it.value, ast.Name) and it.value.id in ("self", "cls") and f.cls is not None:
+                for st_ in f.cls.node.body:
+                    tg_ = st_.targets[0] if isinstance(st_, ast.Assign) else (st_.target if isinstance(st_, ast.AnnAssign) else None)
+                    if isinstance(tg_, ast.Name) and tg_.id == it.attr and getattr(st_, "value", None) is not None:
+                        it = st_.value
+            if isinstance(it, (ast.Tuple, ast.List)) and all(isinstance(e, ast.Constant) and isinstance(e.value, str) for e in it.elts):
+                if any(isinstance(x, ast.Subscript) and isinstance(x.ctx, ast.Store) and isinstance(x.slice, ast.Name) and x.slice.id == lp.target.id for x in ast.walk(lp)):
+                    for e in it.elts:
+                        if e.value in declared:
+                            cli_set.setdefault(e.value, f.short)
     ctx.unit("options_set_by_command_line_arguments", sorted(cli_set))
     if len(cli_set) < 4:
         raise AnalysisError("anchor missing: the command-line arguments that are copied into the language options")
@@ -487,6 +543,31 @@ def rule_ownership(ctx, px):
     ctx.ob(R, ld.module.rel, f"{ld.short} :: not memoised (each loader parses its own copy)", not cached, "" if not cached else f"decorated with {cached}", ld.node.lineno)
     ok = any(isinstance(c, ast.Call) and ast.unparse(c.func) == "LanguageConfig" for c in ast.walk(ld.node))
     ctx.ob(R, ld.module.rel, f"{ld.short} :: builds a new LanguageConfig", ok, "", ld.node.lineno)
+    # ... nor memoised by hand: no method of the configuration classes stores anything on the class or in a module global (a cache of
+    # parsed sections hands the first builder's live maps - with everything merged into them since - to every later builder)
+    shared = []
+    for k in (lcl, px.cls("nunavut.lang._config", "LanguageConfig"), b):
+        cnames = {k.name, "cls"}
+        for m_ in k.methods.values():
+            globs = {nm for g_ in ast.walk(m_.node) if isinstance(g_, ast.Global) for nm in g_.names}
+            for n_ in ast.walk(m_.node):
+                tgs = n_.targets if isinstance(n_, ast.Assign) else ([n_.target] if isinstance(n_, (ast.AugAssign, ast.AnnAssign)) else [])
+                for t_ in tgs:
+                    base = t_
+                    while isinstance(base, ast.Subscript):
+                        base = base.value
+                    if isinstance(base, ast.Attribute):
+                        root = ast.unparse(base.value)
+                        if root in cnames or root in ("type(self)", "self.__class__"):
+                            shared.append(f"{m_.short}: {ast.unparse(t_)}")
+                    elif isinstance(base, ast.Name) and base.id in globs:
+                        shared.append(f"{m_.short}: global {base.id}")
+                if isinstance(n_, ast.Call) and isinstance(n_.func, ast.Attribute) and n_.func.attr in ("update", "setdefault", "append", "add", "__setitem__") \
+                        and isinstance(n_.func.value, ast.Attribute) and ast.unparse(n_.func.value.value) in cnames | {"type(self)", "self.__class__"}:
+                    shared.append(f"{m_.short}: {ast.unparse(n_.func)}()")
+    ctx.ob(R, "src/nunavut/lang", "the configuration classes keep no state on the class or in module globals", not shared,
+           "" if not shared else f"{shared}: state written here outlives the builder; a later LanguageContextBuilder in the same process starts from what an "
+           "earlier one merged instead of from the built-in defaults")
     init = lcl.methods["__init__"]
     ok = any(isinstance(s, (ast.Assign, ast.AnnAssign)) and "self._config" in ast.unparse(s) and ast.unparse(s.value) == "None" for s in ast.walk(init.node) if isinstance(s, (ast.Assign, ast.AnnAssign)))
     ctx.ob(R, lcl.module.rel, "LanguageClassLoader.__init__ :: starts without configuration", ok, "", init.node.lineno)
